@@ -63,7 +63,7 @@ PROPS = {
     'C11': {'jobs': [REASM, ARCV], 'assumptions': [
         'sum of len(userData) over all chunks ever pushed < 2^63 (uint64 counter / int conversion in subtractNumBytes)',
         'association level: credit formula over the streams REGISTERED in the association table (deviation D13: unread bytes of a reset stream are not counted); '
-        'sum of held bytes < 2^32 (bytesQueued is a uint32); the global bytes bound is a trace predicate only (not proved)',
+        'C11_bytes_bound / C11_credit_formula_bounded assume buffer + 40000 x (largest chunk) < 2^32 (bytesQueued is a uint32) and fewer than 2^63 user bytes in total',
         'receive-half model Model/Receiver.lean is hand-written; its straight-line tests are translator-generated; tied by replaying every op of TestVerifAssocReceiver']},
     'C02': {'jobs': [E2E_T], 'rule': E2E_RULE},
     'C06': {'jobs': [E2E_PR, E2E_T, E2E_API, REASM, ASND], 'rule': E2E_RULE},
